@@ -72,7 +72,8 @@ def gen_cases(rng, tier):
     for i in range(n):
         ops = []
         for _ in range(rng.choice([1, 2, 3, 5, 8])):
-            k = rng.choice(["ID", "Name", "Note", "é"])
+            # (attribute keys may be called like a GFF column: they are still attributes)
+            k = rng.choice(["ID", "Name", "Note", "é", "ID", "Name", "score", "strand", "start", "source", "featuretype", "frame"])
             r = rng.random()
             if r < 0.35:
                 v = ["s", rng.choice(WORDS)]
@@ -81,7 +82,7 @@ def gen_cases(rng, tier):
             else:
                 v = ["t", [rng.choice(WORDS) for _ in range(rng.choice([0, 1, 2]))]]
             ops.append([k, v, rng.choice(["feature", "attrs", "attrs", "setdefault", "setdefault", "update", "ctor"])])
-        cases.append({"k": "ops", "ops": ops, "absent": rng.choice(["nope", "id"])})
+        cases.append({"k": "ops", "ops": ops, "absent": rng.choice(["nope", "id", "seqid", "end", "strand"])})
     for i in range(n):
         m, used = [], set()
         for _ in range(rng.choice([0, 1, 2, 3, 6])):
